@@ -1,6 +1,7 @@
 /* C05: multiple-direction routing.
  * Defines: N, D, GRID (0 real profile grid / 1 table), BLMASK, USE_MASK/MASKBITS, TABLE, SPACING, LOOPED,
  *   PEXP (0 or 1: exact pow by the C standard; 2: "any exponent" with pow as a contract-constrained stub),
+ *   P1EXP (exponent of the first of two rounds),
  *   ROUNDS (1 | 2: second application on the same graph object with another elevation field / exponent),
  *   EXCL_DEGENERATE: exclude the known-finding class (a node has lower neighbours but the sum of slope^p over
  *   them is zero, infinite or NaN, so that the normalisation divides 0/0 or inf/inf)
@@ -13,17 +14,20 @@
 #ifndef ROUNDS
 #define ROUNDS 1
 #endif
+#ifndef P1EXP
+#define P1EXP 1
+#endif
 #if GRID == 1
 #include TABLE
 #endif
-double in_e[N], in_e1[N];
+fsv_f64 in_e[N], in_e1[N];
 
 void fsv_harness(void)
 {
   uint64_t bl[N + 1]; uint64_t nbl = 0;
   uint64_t rec[N * D], rcount[N], dcount[N], donors[N * (D + 1)];
-  double rdist[N * D], rweight[N * D];
-  uint64_t cnt[N], nb[N * D]; double dist[N * D];
+  fsv_f64 rdist[N * D], rweight[N * D];
+  uint64_t cnt[N], nb[N * D]; fsv_f64 dist[N * D];
   uint8_t mask[N];
   FSV_IN_F64(in_e, N);
   for (int i = 0; i < N; i++) FSV_ASSUME(FSV_ISFINITE(in_e[i]));
@@ -38,7 +42,7 @@ void fsv_harness(void)
 #endif
   for (int i = 0; i < N; i++) if ((BLMASK >> i) & 1) bl[nbl++] = i;
 #if GRID == 0
-  double sp = SPACING;
+  fsv_f64 sp = SPACING;
 #ifdef LOOPED
   uint8_t st = 3;
 #else
@@ -54,18 +58,18 @@ void fsv_harness(void)
 #endif
     dist[i * 2] = dist[i * 2 + 1] = sp;
   }
-  fsv_multi(ROUNDS == 2 ? in_e1 : in_e, in_e, ROUNDS, ROUNDS == 2 ? 1.0 : (double)PEXP, (double)PEXP, mask, USE_MASK, bl, nbl, st, st, sp, 0, 0, 0, rec, rdist, rweight, rcount, dcount, donors);
+  fsv_multi(ROUNDS == 2 ? in_e1 : in_e, in_e, ROUNDS, ROUNDS == 2 ? (double)P1EXP : (double)PEXP, (double)PEXP, mask, USE_MASK, bl, nbl, st, st, sp, 0, 0, 0, rec, rdist, rweight, rcount, dcount, donors);
 #else
   for (int i = 0; i < N; i++) { cnt[i] = T_cnt[i]; for (int k = 0; k < D; k++) { nb[i * D + k] = T_nb[i * D + k]; dist[i * D + k] = T_dist[i * D + k]; } }
-  fsv_multi(ROUNDS == 2 ? in_e1 : in_e, in_e, ROUNDS, ROUNDS == 2 ? 1.0 : (double)PEXP, (double)PEXP, mask, USE_MASK, bl, nbl, 0, 0, 0, cnt, nb, dist, rec, rdist, rweight, rcount, dcount, donors);
+  fsv_multi(ROUNDS == 2 ? in_e1 : in_e, in_e, ROUNDS, ROUNDS == 2 ? (double)P1EXP : (double)PEXP, (double)PEXP, mask, USE_MASK, bl, nbl, 0, 0, 0, cnt, nb, dist, rec, rdist, rweight, rcount, dcount, donors);
 #endif
-  const double* e = in_e;
+  const fsv_f64* e = in_e;
   for (int i = 0; i < N; i++) { FSV_OBS_U64(rcount[i]); for (int k = 0; k < (int)rcount[i] && k < D; k++) { FSV_OBS_U64(rec[i * D + k]); FSV_OBS_F64(rdist[i * D + k]); FSV_OBS_F64(rweight[i * D + k]); } }
 
   for (int i = 0; i < N; i++) {
     int base = (BLMASK >> i) & 1;
     /* expected receivers: unmasked strictly lower neighbours, in neighbour order */
-    int n = 0; uint64_t xr[D]; double xd[D], xs[D];
+    int n = 0; uint64_t xr[D]; fsv_f64 xd[D], xs[D];
     if (!base && !mask[i]) for (int k = 0; k < (int)cnt[i]; k++) {
       uint64_t j = nb[i * D + k];
       if (!mask[j] && e[i] > e[j]) { xr[n] = j; xd[n] = dist[i * D + k]; xs[n] = (e[i] - e[j]) / dist[i * D + k]; n++; }
@@ -77,7 +81,7 @@ void fsv_harness(void)
     }
     FSV_ASSERT(rcount[i] == (uint64_t)n, "receiver count equals the number of unmasked strictly lower neighbours");
     if (rcount[i] != (uint64_t)n) continue;
-    double sum = 0.0; double pw[D];
+    fsv_f64 sum = 0.0; fsv_f64 pw[D];
     for (int k = 0; k < n; k++) {
 #if PEXP == 1
       pw[k] = xs[k];
@@ -92,11 +96,11 @@ void fsv_harness(void)
     FSV_ASSUME(sum > 0.0 && FSV_ISFINITE(sum));
 #endif
     if (!(sum > 0.0 && FSV_ISFINITE(sum))) FSV_NOTE("CLASS degenerate-sum: node %d has %d lower neighbours, sum of slope^p = %g\n", i, n, sum);
-    double wsum = 0.0;
+    fsv_f64 wsum = 0.0;
     for (int k = 0; k < n; k++) {
       FSV_ASSERT(rec[i * D + k] == xr[k], "receivers are exactly the lower unmasked neighbours, each once");
       FSV_ASSERT(rdist[i * D + k] == xd[k], "receiver distance is the grid distance");
-      double w = rweight[i * D + k];
+      fsv_f64 w = rweight[i * D + k];
 #ifndef NO_WEIGHTS
       FSV_ASSERT(!FSV_ISNAN(w), "weight is not NaN");
 #ifndef NAN_ONLY
